@@ -4,12 +4,17 @@
 (* spend the funding output x every order of restarts / expiry / claims /    *)
 (* timeout spends within the bounds.  With WatcherConfusesPending or         *)
 (* RelaunchUsesAllSets the run must end in a violation of the property       *)
-(* (ChainActionsConfCtl.cfg: non-vacuity controls).                          *)
+(* (ChainActionsConfCtl.cfg: non-vacuity controls).  The quick tier checks   *)
+(* the full universe without fee updates (Fees = FALSE) and the fee-update   *)
+(* dimension with offered HTLCs of the sizes that react to it (SizesEdge);   *)
+(* the thorough tier checks the full product.                                *)
 EXTENDS ChainActionsConf
 
 DirsBoth == {"out", "in"}
 DirsOut  == {"out"}
 SizesAll == {"big", "mid", "small"}
+SizesFee == {"big", "mid", "edge", "small"}
+SizesEdge == {"big", "mid", "edge"}
 SizesBM  == {"big", "mid"}
 SizesBig == {"big"}
 LowBoth  == {FALSE, TRUE}
